@@ -14,7 +14,7 @@ REGENERATE_SRC = True
 RULE = ("pool states on and around every threshold (t, t±1/k), controller parameters accepted and rejected by "
         "the constructors, rule / slave tables of 0..8 entries in random declaration order (duplicates and zero "
         "thresholds rejected), sequences of 1..25 regulation steps interleaved with pool state changes; Stepwise "
-        "is driven through run() under trio's MockClock; non-trivial = accepted constructor and at least one step "
+        "is driven through run() under trio's MockClock; DemandSwitch controllers arrive unbound, bound to the switch's pool, or bound to another pool that compares equal to it; non-trivial = accepted constructor and at least one step "
         "that changed demand or selected a non-default rule/controller; distinct = distinct canonical case JSON")
 ASSUMPTIONS = ["exact arithmetic: parameters and pool states are Fractions/ints (IEEE rounding not modelled)",
                "supply is non-negative for Stepwise (a negative supply is not a pool state; the lookup then finds no rule)"]
